@@ -315,9 +315,11 @@ impl Sim {
             self.collect();
             let mut expected = 0;
             for n in self.nodes.iter().filter(|n| n.alive) {
-                let cs = n.node.dbs.cluster_state.lock().unwrap();
-                let members = cs.members.lock().unwrap();
-                expected += members.values().filter(|m| m.sender.is_some()).count();
+                if let Ok(cs) = n.node.dbs.cluster_state.lock() {
+                    if let Ok(members) = cs.members.lock() {
+                        expected += members.values().filter(|m| m.sender.is_some()).count();
+                    }
+                }
             }
             let have = self.links.iter().filter(|l| l.open).count();
             if have >= expected {
@@ -492,6 +494,59 @@ impl Sim {
                     self.kill(k)?;
                     return Ok(());
                 }
+                if let Some(k) = op.get("tick").and_then(|k| k.as_str()) {
+                    // declutter timer of that node
+                    let ti = self.idx(k).ok_or("node")?;
+                    let r = self.nodes[ti].node.tick();
+                    self.emit(json!({"ev":"tick_node","node":k,"r":r}));
+                    return Ok(());
+                }
+                if let Some(k) = op.get("restart").and_then(|k| k.as_str()) {
+                    // the node process ends (if it still runs) and is started again on its directory
+                    let ti = self.idx(k).ok_or("node")?;
+                    if self.nodes[ti].alive {
+                        self.kill(k)?;
+                    }
+                    let dir = self.nodes[ti].node.dir.clone();
+                    let pid = op["pid"].as_u64().map(|p| p as u128).unwrap_or(self.nodes[ti].pid + 1000);
+                    if op["wipe"].as_bool() == Some(true) {
+                        let _ = std::fs::remove_dir_all(&dir);
+                    }
+                    let old = self.nodes.remove(ti);
+                    drop(old);
+                    let before = self.nodes.len();
+                    let started = self.start_node(k, &dir, pid);
+                    if let Err(e) = started {
+                        self.emit(json!({"ev":"restart_failed","node":k,"msg":e}));
+                        return Err(format!("node {} does not start again: restart_failed", k));
+                    }
+                    let fresh = self.nodes.remove(before);
+                    self.nodes.insert(ti, fresh);
+                    self.emit(json!({"ev":"restarted","node":k,"wipe":op["wipe"].as_bool() == Some(true),
+                                     "oplog_valid": self.nodes[ti].node.dbs.is_oplog_valid.load(std::sync::atomic::Ordering::SeqCst)}));
+                    // it asks every other live node to let it join (auth; join self)
+                    let others: Vec<String> = self.nodes.iter().filter(|n| n.alive && n.name != k).map(|n| n.name.clone()).collect();
+                    for y in others {
+                        let yi = self.idx(&y).unwrap();
+                        let (mut c, _rx) = Client::new_empty_and_receiver();
+                        let dbs = self.nodes[yi].node.dbs.clone();
+                        let dir = self.nodes[yi].node.dir.clone();
+                        let (u, p, xn) = (self.user.clone(), self.pwd.clone(), k.to_string());
+                        let tid = self.new_task(TaskKind::Disconnect(y.clone(), format!("join-from-{}", k)));
+                        self.emit(json!({"ev":"ask_join","from":k,"to":y}));
+                        let r = run_task(tid, dir, move || {
+                            process_request(&format!("auth {} {}", u, p), &dbs, &mut c);
+                            resp_json(process_request(&format!("join {}", xn), &dbs, &mut c))
+                        })?;
+                        if let Some(r) = r {
+                            self.finish_task(tid, r);
+                        } else {
+                            self.emit(json!({"ev":"suspended","task":tid}));
+                        }
+                        self.settle_links()?;
+                    }
+                    return Ok(());
+                }
                 let line = op["line"].as_str().unwrap_or("").to_string();
                 self.emit(json!({"ev":"client","i":i,"node":node,"c":c,"line":line,"op":op.get("op").cloned().unwrap_or(json!({}))}));
                 // sessions live in the node; the command itself may block (elections)
@@ -599,12 +654,16 @@ impl Sim {
                 nodes.insert(n.name.clone(), json!({"alive": false}));
                 continue;
             }
-            let members: Vec<J> = {
-                let cs = n.node.dbs.cluster_state.lock().unwrap();
-                let m = cs.members.lock().unwrap();
-                let mut v: Vec<J> = m.values().map(|x| json!([x.name, format!("{}", x.role), x.sender.is_some()])).collect();
-                v.sort_by(|a, b| a.to_string().cmp(&b.to_string()));
-                v
+            let members: Vec<J> = match n.node.dbs.cluster_state.lock() {
+                Ok(cs) => match cs.members.lock() {
+                    Ok(m) => {
+                        let mut v: Vec<J> = m.values().map(|x| json!([x.name, format!("{}", x.role), x.sender.is_some()])).collect();
+                        v.sort_by(|a, b| a.to_string().cmp(&b.to_string()));
+                        v
+                    }
+                    Err(_) => vec![json!(["#poisoned", "-", false])],
+                },
+                Err(_) => vec![json!(["#poisoned", "-", false])],
             };
             let pending = n.node.dbs.pending_opps.read().map(|p| p.len() as i64).unwrap_or(-1);
             let mut inbox = serde_json::Map::new();
